@@ -169,9 +169,8 @@ class CliffordCircuit:
                 retR, retS = clifford_multiply(retR, retS, tmpR, tmpS)
             self._R = retR
             self._S = retS
-            ret = retR,retS
-        else:
-            ret = self._R, self._S
+        # copies: writing into the returned arrays must not corrupt the cached tableau
+        ret = self._R.copy(), self._S.copy()
         return ret
 
     def apply_pauli_F2(self, pauli_F2):
